@@ -65,6 +65,8 @@ class Profile:
         self.min_calls = 0
         self.loop_weight = 1
         self.if_weight = 2
+        self.ascii_nonascii = 0.06     # .ascii strings that contain a character without an ASCII byte
+        self.wide_consts = 0.15        # constants >= 2^24 or negative
         self.empty_prob = 0.1          # a block / scope / loop / branch / macro body with no statement at all
         self.lead_reloc = 0.04         # the program starts with @= instead of *=
         self.pos_expr = 0.35           # *= / @= targets inside macro bodies and loops that depend on a parameter / the loop variable
@@ -548,7 +550,13 @@ class ProgGen:
                 d = rng.choice(["db", "dw", "dl", "pointer"])
                 out.append({"k": "data", "d": d, "es": [self.value_expr(gs) for _ in range(rng.choice([1, 1, 2, 3, 6]))]})
             elif k == "ascii":
-                out.append({"k": "ascii", "s": "".join(rng.choice("abcXYZ 019;{}#,.") for _ in range(rng.randint(1, 12)))})
+                txt = "".join(rng.choice("abcXYZ 019;{}#,.") for _ in range(rng.randint(1, 12)))
+                if rng.random() < self.p.ascii_nonascii:
+                    # characters without an ASCII byte (what is emitted for them is not specified; that the directive occupies
+                    # what it emits is): the reference model leaves such programs to the model-free oracles
+                    i = rng.randint(0, len(txt))
+                    txt = txt[:i] + rng.choice(["\u00e9", "\u00dc", "\u00bd", "\u6f22"]) + txt[i:]
+                out.append({"k": "ascii", "s": txt})
             elif k == "text":
                 # table-encoded text: multi-character entries, multi-byte codes, unknown characters and [0xNN] escapes make
                 # the emitted length differ from the number of characters written
@@ -569,12 +577,16 @@ class ProgGen:
                 name = self.fresh_const(gs, eager)
                 gs.consts.append(name)
                 self._note_inline(gs, name)
+                wide = None
+                if rng.random() < self.p.wide_consts:
+                    wv = rng.choice([0x1000000, 0x12345678, 0x80FF1234, 0xFFFFFFFF, 1 << 32, -1, -2, -0x100, -0x123456])
+                    wide = ["lit", wv, "x"] if wv >= 0 else ["neg", ["lit", -wv, "x"]]
                 if eager:
-                    t, v = self.x_expr(gs)
+                    t, v = (wide, X.evaluate(wide, {})) if wide is not None else self.x_expr(gs)
                     out.append({"k": "const", "n": name, "e": t, "eager": True})
                     gs.xc[name] = v
                 else:
-                    out.append({"k": "const", "n": name, "e": self.value_expr(gs, params=gs.kind == "macro"), "eager": False})
+                    out.append({"k": "const", "n": name, "e": wide if wide is not None else self.value_expr(gs, params=gs.kind == "macro"), "eager": False})
                     gs.eq.append(name)
             elif k == "org":
                 out.append({"k": "org", "a": self.position(gs, self.rom_address(), 0.85)})
@@ -589,6 +601,13 @@ class ProgGen:
                 out.append({"k": "block", "b": self.fill(node["b"], node["gs"], depth + 1)})
             elif k == "scope":
                 out.append({"k": "scope", "n": node["n"], "b": self.fill(node["b"], node["gs"], depth + 1)})
+                # a named scope exports its symbols too (scopename.constant), usable from here on like its labels
+                gs.exports += [f"{node['n']}.{c}" for c in node["gs"].consts if c not in node["gs"].labels]
+                # ... and those that are known while the program is expanded (:=) can be used in conditions, bounds, := and
+                # macro arguments after the scope
+                for c, v in node["gs"].xc.items():
+                    if c in node["gs"].consts and "." not in c:
+                        gs.xc[f"{node['n']}.{c}"] = v
             elif k == "for":
                 child = node["gs"]
                 lo_t, lo = self.x_expr(gs, small=True)
@@ -612,6 +631,11 @@ class ProgGen:
                     c = ["id", "k_undefined"]
                 elif form < 0.3:
                     c = ["lit", rng.choice([0, 1, 5]), "d"]
+                elif form < 0.42:
+                    # non-zero values whose low byte / word / 24 / 32 bits are all zero, and their negatives
+                    c = ["lit", rng.choice([0x100, 0x8000, 0x10000, 0x7E0000, 0x1000000, 0xFFFF0000, 1 << 32, 1 << 40]), "x"]
+                    if rng.random() < 0.3:
+                        c = ["neg", c]
                 else:
                     c, _ = self.x_expr(gs)
                     if rng.random() < 0.3:
@@ -643,6 +667,14 @@ class ProgGen:
                 k = rng.random()
                 if self.p.param_named_consts and k < 0.35:
                     args.append(["id", rng.choice(self.param_consts)])
+                elif k > 0.88:
+                    # values that code likes to use as markers: -1, 0, 1, -2, all-ones of a field, one past a field
+                    v = rng.choice([-1, -1, 0, 1, -2, 0xFF, 0xFFFF, 0xFFFFFF, 0x1000000, 0xFFFFFFFF, -0x8000])
+                    form = rng.random()
+                    if v < 0:
+                        args.append(["neg", ["lit", -v, "d"]] if form < 0.5 else ["bin", "-", ["lit", 3, "d"], ["lit", 3 - v, "d"]])
+                    else:
+                        args.append(["lit", v, rng.choice(["d", "x"])])
                 else:
                     args.append(self.value_expr(gs))
         if rng.random() < 0.1:
